@@ -35,12 +35,17 @@ impl<T> VpIter<T> {
     #[verifier::external_body]
     pub fn any<F: FnMut(T) -> bool>(&mut self, f: F) -> (r: bool)
         requires forall|x: T| f.requires((x,)),
-        ensures r <==> (exists|k: int| 0 <= k < old(self).rest().len() && f.ensures((#[trigger] old(self).rest()[k],), true)),
+        // (a closure's `ensures` only constrains results that occurred, so both outcomes are stated through occurred calls)
+        ensures
+            r ==> (exists|k: int| 0 <= k < old(self).rest().len() && f.ensures((#[trigger] old(self).rest()[k],), true)),
+            !r ==> (forall|k: int| 0 <= k < old(self).rest().len() ==> f.ensures((#[trigger] old(self).rest()[k],), false)),
     { unimplemented!() }
     #[verifier::external_body]
     pub fn all<F: FnMut(T) -> bool>(&mut self, f: F) -> (r: bool)
         requires forall|x: T| f.requires((x,)),
-        ensures r <==> (forall|k: int| 0 <= k < old(self).rest().len() ==> f.ensures((#[trigger] old(self).rest()[k],), true)),
+        ensures
+            r ==> (forall|k: int| 0 <= k < old(self).rest().len() ==> f.ensures((#[trigger] old(self).rest()[k],), true)),
+            !r ==> (exists|k: int| 0 <= k < old(self).rest().len() && f.ensures((#[trigger] old(self).rest()[k],), false)),
     { unimplemented!() }
     /// `take(n)`
     #[verifier::external_body]
